@@ -626,6 +626,9 @@ class MQTTProtocol(MQTTBaseProtocol):
         for k in list(self.factory.windowPublish[self.addr]):
             request = self.factory.windowPublish[self.addr][k]
             del self.factory.windowPublish[self.addr][k]
+            if request.alarm is not None:
+                request.alarm.cancel()
+                request.alarm = None
             request.deferred.errback(reason)
 
         for k in list(self.factory.windowPubRelease[self.addr]):
